@@ -542,6 +542,38 @@ theorem rounds_mono (cfg : Config) (dec : Reply → Bool) :
               simp only [this]
       · rfl
 
+theorem rounds_mono_add (cfg : Config) (dec : Reply → Bool) (script : List Reply) (b : Nat)
+    (h : List Msg) (hne : (rounds cfg dec script b h).2.2 ≠ .error .maxSteps) (d : Nat) :
+    rounds cfg dec script (b + d) h = rounds cfg dec script b h := by
+  induction d with
+  | zero => rfl
+  | succ d ih =>
+    rw [show b + (d + 1) = (b + d) + 1 by omega, rounds_mono cfg dec script (b + d) h (by rw [ih]; exact hne), ih]
+
+/-! `MaxStep` enters only through the step limit -/
+
+theorem resolveCalls_setMax (cfg : Config) (n : Int) :
+    ∀ calls, resolveCalls { cfg with maxStep := n } calls = resolveCalls cfg calls := by
+  intro calls
+  induction calls with
+  | nil => rfl
+  | cons c cs ih => simp only [resolveCalls, ih]
+
+theorem runTools_setMax (cfg : Config) (n : Int) (m : Msg) :
+    runTools { cfg with maxStep := n } m = runTools cfg m := by
+  simp only [runTools, resolveCalls_setMax]
+
+theorem rounds_setMax (cfg : Config) (n : Int) (dec : Reply → Bool) :
+    ∀ script b h, rounds { cfg with maxStep := n } dec script b h = rounds cfg dec script b h := by
+  intro script
+  induction script with
+  | nil => intro b h; cases b <;> rfl
+  | cons r rest ih =>
+    intro b h
+    cases b with
+    | zero => rfl
+    | succ b => simp only [rounds, runTools_setMax, ih]
+
 /-- node executions come as chat, tools, chat, tools, …, optionally closed by
     tools, direct_return -/
 inductive Alternates : List Ev → Prop
